@@ -12,7 +12,10 @@ oracle: the property itself on the real code, without the model
   * counters: no exception when every group is in the universe; every cell equals the sum of the increments an
     ungrouped twin counter makes for the calls of that group; rows sum to the twin's value; matrix and linear files
     both equal the in-memory cells under the group *names*; outputs identical under every hash seed;
-  * the real pipeline on synthetic data: {tag, read_id, file, file_name} x {matrix, linear, both} with reads that
+  * file_name grouping through the real BAMOnlineMerger + FileNameGrouper on 2-4 real BAM files with partly disjoint
+    coverage: the group of every alignment is the label of the file that stores the read;
+  * the real pipeline on synthetic data: {tag, read_id, file, file_name, implicit file_name with >= 2 BAMs whose loci /
+    chromosomes are partly missing from earlier-listed files} x {matrix, linear, both} with reads that
     have no group, groups missing from a chromosome, 1-2 threads, two hash seeds.
 """
 import json
@@ -205,6 +208,79 @@ def check_profile_case(case, tmpdir):
     ung = {f: [i, e] for f, _, i, e in u["lines"]}
     if tot != ung:
         res.append(("partition", "exon groups sum to %s, ungrouped %s" % (sorted(tot.items())[:4], sorted(ung.items())[:4])))
+    return res
+
+
+def merger_case(rng):
+    """several BAM files of one experiment with partly disjoint coverage (description only; written by check_merger_case)"""
+    nfiles = rng.choice([2, 3, 3, 4])
+    chroms = ["chr1", "chr2"]
+    loci = [(c, 200 + 1500 * k) for c in chroms for k in range(rng.randint(2, 4))]
+    files = [[] for _ in range(nfiles)]
+    n = 0
+    for li, (c, pos) in enumerate(loci):
+        sub = [i for i in range(nfiles) if rng.random() < 0.55]
+        if li % 2 == 0:
+            sub = [i for i in sub if i != 0] or [nfiles - 1]
+        sub = sub or [rng.randrange(nfiles)]
+        for i in sub:
+            for _ in range(rng.randint(1, 3)):
+                files[i].append(["f%d_q%d" % (i, n), c, pos + rng.randint(0, 300), rng.choice([80, 150, 400])])
+                n += 1
+    for i in range(nfiles):
+        if not files[i]:
+            files[i].append(["f%d_q%d" % (i, n), "chr1", 5000 + 10 * i, 100])
+            n += 1
+    regions = [[c, 0, 7000] for c in chroms] + [[c, max(0, pos - 50), pos + 800] for c, pos in loci]
+    return {"files": files, "regions": regions, "labels": rng.random() < 0.5}
+
+
+def check_merger_case(case, tmpdir):
+    """file_name grouping through the real BAMOnlineMerger + FileNameGrouper on real BAM files: the group of every
+    alignment handed out by the merger must be the label of the file the read is stored in"""
+    import pysam
+    from gen import synth
+    vlib.repo_on_path()
+    import src.alignment_processor as AP
+    RG = _impl()
+    d = tempfile.mkdtemp(prefix="merger_", dir=tmpdir)
+    res = []
+    try:
+        paths, home = [], {}
+        for i, reads in enumerate(case["files"]):
+            ds = synth.Dataset(seed=i)
+            ds.add_chrom("chr1", 8000)
+            ds.add_chrom("chr2", 8000)
+            for name, chrom, pos, ln in reads:
+                ds.add_read(name, chrom, pos, "%dM" % ln)
+                home[name] = i
+            paths.append(ds.write(d, bam_name="in%d.bam" % i, write_ref=False)["bam"])
+        label = {p: ("L%d" % i if case["labels"] else os.path.splitext(os.path.basename(p))[0]) for i, p in enumerate(paths)}
+        sample = _NS(readable_names_dict=dict(label) if case["labels"] else {}, file_list=[[p] for p in paths])
+        grouper = RG.FileNameGrouper(_NS(input_data=_NS(samples=[sample])), sample)
+        bam_pairs = [(pysam.AlignmentFile(p, "rb", require_index=True), p) for p in paths]
+        try:
+            merger = None
+            for chrom, a, b in case["regions"]:
+                if merger is None:
+                    merger = AP.BAMOnlineMerger(bam_pairs, chrom, a, b)
+                else:
+                    merger.reset_region(chrom, a, b)
+                for bam_index, aln in merger.get():
+                    got = grouper.get_group_id(aln, merger.bam_pairs[bam_index][1])
+                    want = label[paths[home[aln.query_name]]]
+                    if got != want:
+                        res.append(("wrong_group", "read %s of file %s (%s:%d-%d) is grouped under %r, its file is labelled %r"
+                                    % (aln.query_name, os.path.basename(paths[home[aln.query_name]]), chrom, a, b, got, want),
+                                    [chrom, a, b]))
+                        break
+                if res:
+                    break
+        finally:
+            for bp in bam_pairs:
+                bp[0].close()
+    finally:
+        shutil.rmtree(d, ignore_errors=True)
     return res
 
 
@@ -804,6 +880,14 @@ def oracle(ctx, disagreements, broken):
             n += 1
             for kind, det, a in check_grouper_case(spec, alns, tmp):
                 ctx.fail(kind, {"what": "grouper", "grouper": spec, "alns": [a]}, det)
+        # 2a. file_name grouping through the real BAM merger (several files, partly disjoint coverage)
+        for _ in range(12 if ctx.tier == "quick" else 80):
+            mc = merger_case(ctx.rng)
+            n += 1
+            for kind, det, region in check_merger_case(mc, tmp):
+                if len(ctx.failures) < 30:
+                    # minimal replay: the failing region only, and only the files that have reads there
+                    ctx.fail(kind, {"what": "merger", "case": dict(mc, regions=[region])}, det)
         # 2b. exon / intron counters
         for d in disagreements:
             if d["op"] == "profile_counter":
@@ -938,15 +1022,33 @@ def build_dataset(ds_seed, mode, d):
         paths = ds.write(d)
         bams = [paths["bam"]]
         mode = "file:%s:1:0:," % tab
-    elif kind == "file_name":
-        nfiles = rng.randint(1, 3)
-        names = ["A", "b.x", "counts_C"][:nfiles]
+    elif kind in ("file_name", "implicit"):
+        # several BAM files of one experiment with partly disjoint coverage: every gene (= locus, a cluster of
+        # overlapping reads) is covered by a proper subset of the files, some loci and (often) a whole chromosome are
+        # missing from an EARLIER-listed file while a later-listed one covers them
+        nfiles = rng.choice([3, 3, 4, 2]) if (kind == "implicit" or rng.random() < 0.9) else 1
+        names = ["A", "b.x", "counts_C", "d"][:nfiles]
+        gene_of = lambda r: "_".join(r["name"].split("_")[1:3])
+        genes = sorted({(r["chr"], gene_of(r)) for r in ds.reads})
+        skip_chr2_in_first = nfiles > 1 and rng.random() < 0.6
+        allowed = {}
+        for k, (chrom, gname) in enumerate(genes):
+            if nfiles == 1:
+                allowed[gname] = [0]
+                continue
+            sub = [i for i in range(nfiles) if rng.random() < 0.6]
+            if k % 2 == 0:
+                sub = [i for i in sub if i != 0] or [nfiles - 1]       # an earlier file is absent, a later one present
+            if chrom == "chr2" and skip_chr2_in_first:
+                sub = [i for i in sub if i != 0]
+            allowed[gname] = sub or [rng.randrange(1, nfiles)]
         buckets = [[] for _ in range(nfiles)]
         for r in ds.reads:
-            i = rng.randrange(nfiles)
-            if r["chr"] == "chr2" and i == nfiles - 1 and nfiles > 1:
-                i = 0                      # the last file has reads on chr1 only
-            buckets[i].append(r)
+            buckets[rng.choice(allowed[gene_of(r)])].append(r)
+        for i in range(nfiles):                 # no empty BAM file: move one read of the fullest bucket
+            if not buckets[i]:
+                src = max(range(nfiles), key=lambda q: len(buckets[q]))
+                buckets[i].append(buckets[src].pop())
         paths = ds.write(d, bam_name=names[0] + ".bam", reads=buckets[0])
         bams = [paths["bam"]]
         for nm, b in zip(names[1:], buckets[1:]):
@@ -961,7 +1063,8 @@ def build_dataset(ds_seed, mode, d):
     else:
         raise RuntimeError(mode)
     args = ["--bam"] + bams + ["--reference", paths["ref"], "--genedb", paths["gtf"], "--complete_genedb",
-                                 "--data_type", "nanopore", "-p", "S", "--no_gzip", "--read_group", mode] + extra
+                                 "--data_type", "nanopore", "-p", "S", "--no_gzip"] + \
+           ([] if kind == "implicit" else ["--read_group", mode]) + extra      # several BAMs without --read_group: file_name
     return args, doc
 
 
@@ -1152,8 +1255,8 @@ def pipeline_configs(ctx):
         for fmt in G.FORMATS:
             cfgs.append({"mode": m, "fmt": fmt, "threads": rng.choice([1, 2]), "hashseed": str(rng.choice([0, 1, 7, 42])),
                          "ds_seed": rng.randrange(10 ** 6), "exons": rng.random() < 0.35})
-    extra_modes = ["tag:HP", "read_id:_", "filecsv", "read_id:--", "tag:RG"]
-    for m in (extra_modes[:3] if ctx.tier == "quick" else extra_modes * 4 + modes * 6):
+    extra_modes = ["tag:HP", "read_id:_", "filecsv", "implicit", "file_name", "read_id:--", "tag:RG"]
+    for m in (extra_modes[:5] if ctx.tier == "quick" else extra_modes * 4 + modes * 6):
         cfgs.append({"mode": m, "fmt": rng.choice(G.FORMATS), "threads": rng.choice([1, 2, 3]),
                      "hashseed": str(rng.randrange(1000)), "ds_seed": rng.randrange(10 ** 6), "exons": rng.random() < 0.35})
     return cfgs
@@ -1213,6 +1316,12 @@ def replay(ctx, failure):
     if what == "counter":
         o = run_helper([inp["case"]], inp["hashseed"])[0]
         return any(k == kind for k, _ in check_counter_obs(inp["case"], o))
+    if what == "merger":
+        tmp = tempfile.mkdtemp(prefix="isoverif_c09r_")
+        try:
+            return any(k == kind for k, _, _ in check_merger_case(inp["case"], tmp))
+        finally:
+            shutil.rmtree(tmp, ignore_errors=True)
     if what == "profile":
         tmp = tempfile.mkdtemp(prefix="isoverif_c09r_")
         try:
